@@ -348,6 +348,12 @@ func recordAuthFailure(clientIP string, trackers map[string]*authFailureTracker,
 	defer mu.Unlock()
 
 	tracker := trackers[clientIP]
+	if tracker == nil {
+		// The cleanup goroutine (or capacity eviction) may have removed the entry
+		// between the caller's unlock and this call.
+		tracker = &authFailureTracker{}
+		trackers[clientIP] = tracker
+	}
 	tracker.failures++
 	tracker.lastFailure = time.Now()
 
